@@ -129,7 +129,28 @@ func pagedApp(rc *rcase) *app.App {
 	code = append(code, codec.Ins{Op: codec.HALT})
 	code = append(code, codec.Ins{Op: codec.INCMP, S1: ">", S2: "nx"})
 	code = append(code, codec.Ins{Op: codec.INCMP, S1: "<", S2: "pv"})
+	code = append(code, codec.Ins{Op: codec.INCMP, S1: "other", S2: "go"})
 	a.AddNode(&app.Node{Name: "root", Code: code, Template: rc.template()})
+	// a second paginated node with a different sink (a zero-size symbol when root pages its menu, and vice versa)
+	var oc []codec.Ins
+	if rc.MSink {
+		oc = append(oc, codec.Ins{Op: codec.LOAD, S1: "osnk", N: 0}, codec.Ins{Op: codec.MAP, S1: "osnk"}, codec.Ins{Op: codec.MOUT, S1: "oback", S2: "bk"})
+	} else {
+		for k := 0; k < 9; k++ {
+			oc = append(oc, codec.Ins{Op: codec.MOUT, S1: fmt.Sprintf("other_entry_%d", k), S2: fmt.Sprint(k)})
+		}
+	}
+	oc = append(oc, codec.Ins{Op: codec.MNEXT, S1: "onext", S2: "nx"}, codec.Ins{Op: codec.MPREV, S1: "oprev", S2: "pv"})
+	if !rc.MSink {
+		oc = append(oc, codec.Ins{Op: codec.MSINK})
+	}
+	oc = append(oc, codec.Ins{Op: codec.HALT}, codec.Ins{Op: codec.INCMP, S1: ">", S2: "nx"}, codec.Ins{Op: codec.INCMP, S1: "<", S2: "pv"}, codec.Ins{Op: codec.INCMP, S1: "_", S2: "bk"}, codec.Ins{Op: codec.INCMP, S1: "_", S2: "*"})
+	otpl := "other node"
+	if rc.MSink {
+		otpl = "other node\n{{.osnk}}"
+	}
+	a.AddNode(&app.Node{Name: "other", Code: oc, Template: otpl})
+	a.Funcs["osnk"] = &app.FuncSpec{Sym: "osnk", Kind: "rows", Rows: []string{"o0", "o1", "o2", "o3", "o4", "o5", "o6", "o7", "o8", "o9"}}
 	a.AddNode(&app.Node{Name: "_catch", Template: "CATCHPAGE", Code: []codec.Ins{{Op: codec.HALT}, {Op: codec.INCMP, S1: "_", S2: "*"}}})
 	for l, t := range rc.Labels {
 		a.Labels[l] = t
@@ -253,6 +274,52 @@ func engineWalk(rc *rcase, size uint32, drv string, c *vk.Ctx) (string, string, 
 			return "previous-on-first-page-not-invalid-input:" + pageKind(rc), fmt.Sprintf("size %d: 'previous' on page 0 answered %q", size, o.Out), k
 		}
 		c.Count("engine_backward_walks", 1)
+	}
+	// revisit: the same session goes to another paginated node (with a different sink), browses it, comes back and
+	// walks this node again; a renderer that lives as long as the engine must not carry anything over
+	if k >= 1 {
+		var d3 app.Driver
+		if drv == "long" {
+			d3 = app.NewLongLived(a, cfg)
+		} else {
+			b3, _ := app.NewBackend(drv)
+			defer b3.Cleanup()
+			pr := app.NewPerRequest(a, cfg, b3)
+			pr.SkipStoredRead = true
+			d3 = pr
+		}
+		defer d3.Close()
+		d3.Request([]byte(""))
+		if k > 1 {
+			d3.Request([]byte("nx"))
+			d3.Request([]byte("pv"))
+		}
+		og := d3.Request([]byte("go"))
+		if og.Panic != "" {
+			return og.PanicSig + ":other-node", "moving to the other paginated node panics: " + og.Panic, k
+		}
+		if og.ExecErr == "" && og.FlushErr == "" {
+			d3.Request([]byte("nx"))
+			d3.Request([]byte("pv"))
+		}
+		ob := d3.Request([]byte("bk"))
+		c.Count("engine_requests", 6)
+		if ob.Panic != "" {
+			return ob.PanicSig + ":revisit", "coming back panics: " + ob.Panic, k
+		}
+		if ob.ExecErr == "" && og.ExecErr == "" {
+			if ob.Out != outs[0] || ob.FlushErr != "" {
+				return "revisit-page-differs:" + pageKind(rc), fmt.Sprintf("size %d: page 0 after visiting another paginated node: %s; on the first visit %q", size, ob.Brief(), outs[0]), k
+			}
+			for i := 1; i < k; i++ {
+				o := d3.Request([]byte("nx"))
+				c.Count("engine_requests", 1)
+				if o.Out != outs[i] || o.FlushErr != "" || o.Panic != "" {
+					return "revisit-page-differs:" + pageKind(rc), fmt.Sprintf("size %d: page %d after visiting another paginated node: %s; on the first visit %q", size, i, o.Brief(), outs[i]), k
+				}
+			}
+			c.Count("engine_revisit_walks", 1)
+		}
 	}
 	return "", "", k
 }
